@@ -16,7 +16,7 @@ open MenpoModel.C12 MenpoModel.C12.Src MenpoModel.Generated.C12Src MenpoModel.Py
 /- the vocabulary is opaque to the comparison: both sides are built from the same operations, and a mismatch is then
    found by comparing the two texts, not by evaluating array operations on symbolic arguments -/
 attribute [local irreducible] rowLen zerosRC zerosN zeros3 pyRange sliceCols takeCols hiBound slice2 addSlice setSlice npCov
-  natIdx pyIdx pySet npWhereEq mkBsr atleast2d npInv npSvd colsTo rowsTo takeTo diagRecip matDot GraphS.nEdges GraphS.edgeAt
+  natIdx pyIdx pySet npWhereEq mkBsr asDtype withShape atleast2d npInv npSvd colsTo rowsTo takeTo diagRecip matDot GraphS.nEdges GraphS.edgeAt
   tileRows transposeM pyDot diagOf rowDots toOut npSqrt fromVectorLike asMatrixT objVec forLoop
 
 /-- split on the remaining `if`s / `match`es of both sides, close every case by computation -/
